@@ -5,6 +5,8 @@ import A816.Props.C15
 import A816.Proofs.ScanLocal
 import A816.Proofs.ScanExt
 import A816.Proofs.ScanToks
+import A816.Proofs.ScanComment
+import A816.Proofs.ScanNaked
 /-!
 # C16 — Output does not depend on how the source text is laid out
 
@@ -144,6 +146,20 @@ theorem comment_skipped (cfg : ParseCfg) (fuel : Nat) (st : PState) (t : Tok) (h
   have hcm : (t.ty == TokTy.COMMENT) = true := by rw [hc]; rfl
   simp [parseProgram, parseDecl, pCurrent, pNext, StateT.run, bind, StateT.bind, get, getThe, MonadStateOf.get, StateT.get,
     pure, StateT.pure, Except.bind, Except.pure, modify, modifyGet, MonadStateOf.modifyGet, StateT.modifyGet, hcur, hne, hcm]
+  split <;> simp_all
+
+/-- the same inside a `{ … }` block (scope, macro body, `.if` / `.for` body): the block loop consumes a COMMENT token
+    and yields no statement for it -/
+theorem comment_skipped_in_block (cfg : ParseCfg) (fuel : Nat) (st : PState) (t : Tok) (ht : st.toks[st.pos]? = some t)
+    (hc : t.ty = .COMMENT) :
+    (parseBlock cfg (fuel + 2)).run st = (parseBlock cfg (fuel + 1)).run { st with pos := st.pos + 1 } := by
+  have hcur : st.toks.getD st.pos eofTok = t := by
+    rw [Array.getD_eq_getD_getElem?, ht]; rfl
+  have hne : (t.ty == TokTy.EOF) = false := by rw [hc]; rfl
+  have hnr : (t.ty == TokTy.RBRACE) = false := by rw [hc]; rfl
+  have hcm : (t.ty == TokTy.COMMENT) = true := by rw [hc]; rfl
+  simp [parseBlock, parseDecl, pCurrent, pNext, StateT.run, bind, StateT.bind, get, getThe, MonadStateOf.get, StateT.get,
+    pure, StateT.pure, Except.bind, Except.pure, modify, modifyGet, MonadStateOf.modifyGet, StateT.modifyGet, hcur, hne, hnr, hcm]
   split <;> simp_all
 
 /-- `ignore_run(" ")`: blanks only move `pos`/`start`; no token, no line bookkeeping -/
@@ -338,6 +354,266 @@ theorem scan_chunks (cfg : ScanCfg) (hcfg : ScanP.CfgOK cfg) (f : Nat) (r : List
     exact ⟨by rw [a2, i1], by rw [a3, i2]⟩
 
 
+open ScanS ScanX ScanK in
+/-- a chunk `c` that the scanner turns into exactly one token `t` before reaching the between-token point behind it:
+    the scan of `c ++ r` is `t` followed by the scan of `r` -/
+theorem one_token_chunk (cfg : ScanCfg) (f : Nat) (c r : List Char) (s' : Scan) (t : Tok)
+    (hr : Reach cfg .initial (initState f (c ++ r)) s') (hpos : s'.pos = c.length) (hst : s'.start = s'.pos)
+    (htoks : s'.toks = #[t]) :
+    (scan cfg .initial f (c ++ r)).toks.toList.map key = key t :: (scan cfg .initial f r).toks.toList.map key ∧
+    (scan cfg .initial f (c ++ r)).error.map errKey = (scan cfg .initial f r).error.map errKey := by
+  have hrel := blanks_between_tokens cfg f f _ r s' (initState f r) hr (Reach.refl _) hst rfl
+    (by rw [hpos]; simp) (Nat.zero_le _) (by
+      show ((c ++ r).drop s'.pos).dropWhile isBlank = (r.drop 0).dropWhile isBlank
+      rw [hpos, List.drop_left, List.drop_zero])
+  have hpre : s'.toks.toList <+: (scan cfg .initial f (c ++ r)).toks.toList := by
+    rw [scan_of_reach cfg .initial f _ s' hr]
+    exact finish_prefix s' _ (tp_scanLoop cfg .initial s' _ s' (Ext.refl s'))
+  refine ⟨?_, hrel.2⟩
+  have htake := List.prefix_iff_eq_take.mp hpre
+  have hdrop2 := hrel.1.eq
+  simp only [Array.length_toList] at hdrop2 htake
+  conv => lhs; rw [← List.take_append_drop s'.toks.size (scan cfg .initial f (c ++ r)).toks.toList]
+  rw [List.map_append, hdrop2, ← htake, htoks]
+  rfl
+
+open ScanS ScanX ScanK in
+/-- **a full-line `;` comment is one COMMENT token, whatever it says**: for every comment text `cs` without a newline
+    and every following text `r`, the scan of `; cs \n r` is one COMMENT token followed by the tokens (types and texts)
+    of the scan of `r`, and it ends as the scan of `r` ends.  Nothing inside the comment — quotes, `/*`, braces,
+    mnemonics — is looked at. -/
+theorem comment_line (cfg : ScanCfg) (f : Nat) (cs r : List Char) (hnl : ∀ c ∈ cs, c ≠ '\n') :
+    ∃ t : Tok, t.ty = .COMMENT ∧
+      (scan cfg .initial f (';' :: (cs ++ '\n' :: r))).toks.toList.map key = key t :: (scan cfg .initial f r).toks.toList.map key ∧
+      (scan cfg .initial f (';' :: (cs ++ '\n' :: r))).error.map errKey = (scan cfg .initial f r).error.map errKey := by
+  have hsplit : ';' :: (cs ++ '\n' :: r) = (';' :: (cs ++ ['\n'])) ++ r := by simp
+  obtain ⟨s', t, hr, h2, h3, h4, h5, h6, _⟩ := reach_comment cfg (initState f (';' :: (cs ++ '\n' :: r))) cs r rfl
+    (by simp [initState]) hnl
+  rw [hsplit] at hr ⊢
+  obtain ⟨k1, k2⟩ := one_token_chunk cfg f _ r s' t hr (by rw [h3]; simp [initState]) h4 (by rw [h5]; simp [initState])
+  exact ⟨t, h6, k1, k2⟩
+
+open ScanS ScanX ScanK in
+/-- **a `/* … */` comment at a between-token point is one COMMENT token, whatever it holds** — newlines, `;`, quotes,
+    `/*`, a leading `/` (the `/*/` idiom), a trailing `*` — provided only that no `*/` starts inside the body
+    (`NoClose`, which is what "the body" means): the scan of `/* body */ r` is one COMMENT token followed by the scan of `r`. -/
+theorem block_comment (cfg : ScanCfg) (f : Nat) (body r : List Char) (hnc : NoClose body) :
+    ∃ t : Tok, t.ty = .COMMENT ∧
+      (scan cfg .initial f ('/' :: '*' :: (body ++ '*' :: '/' :: r))).toks.toList.map key =
+        key t :: (scan cfg .initial f r).toks.toList.map key ∧
+      (scan cfg .initial f ('/' :: '*' :: (body ++ '*' :: '/' :: r))).error.map errKey =
+        (scan cfg .initial f r).error.map errKey := by
+  have hsplit : '/' :: '*' :: (body ++ '*' :: '/' :: r) = ('/' :: '*' :: (body ++ ['*', '/'])) ++ r := by simp
+  obtain ⟨s', t, hr, h2, h3, h4, h5, h6, _⟩ := reach_block_comment cfg
+    (initState f ('/' :: '*' :: (body ++ '*' :: '/' :: r))) body r rfl (by simp [initState]) hnc
+  rw [hsplit] at hr ⊢
+  obtain ⟨k1, k2⟩ := one_token_chunk cfg f _ r s' t hr (by rw [h3]; simp [initState]) h4 (by rw [h5]; simp [initState])
+  exact ⟨t, h6, k1, k2⟩
+
+open ScanS ScanX ScanK in
+/-- a comment met at *any* between-token point the scan of a text `i` passes through (`Reach`; e.g. behind a complete
+    statement and its trailing blanks, which is where an end-of-line comment starts): if the scan gets from that point
+    `s` to the between-token point `s'` having emitted just the token `t`, and `r` is the text that remains there, then
+    the tokens of the scan of `i` after those of `s` are `t` followed by the tokens of the scan of `r` alone -/
+theorem one_token_at_point (cfg : ScanCfg) (f f2 : Nat) (i r : List Char) (s s' : Scan) (t : Tok)
+    (hs : Reach cfg .initial (initState f i) s) (hr : Reach cfg .initial s s') (hst : s'.start = s'.pos)
+    (hpos : s'.pos ≤ i.length) (hrest : i.drop s'.pos = r) (htoks : s'.toks = s.toks.push t) :
+    ((scan cfg .initial f i).toks.toList.drop s.toks.size).map key = key t :: (scan cfg .initial f2 r).toks.toList.map key ∧
+    (scan cfg .initial f i).error.map errKey = (scan cfg .initial f2 r).error.map errKey := by
+  have hr' := Reach.trans hs hr
+  have hrel := blanks_between_tokens cfg f f2 i r s' (initState f2 r) hr' (Reach.refl _) hst rfl hpos (Nat.zero_le _) (by
+      show (i.drop s'.pos).dropWhile isBlank = (r.drop 0).dropWhile isBlank
+      rw [hrest, List.drop_zero])
+  have hpre : s'.toks.toList <+: (scan cfg .initial f i).toks.toList := by
+    rw [scan_of_reach cfg .initial f _ s' hr']
+    exact finish_prefix s' _ (tp_scanLoop cfg .initial s' _ s' (Ext.refl s'))
+  refine ⟨?_, hrel.2⟩
+  obtain ⟨rest, hrest2⟩ := hpre
+  have hdrop2 := hrel.1.eq
+  have h0 : (initState f2 r).toks.size = 0 := rfl
+  rw [h0, List.drop_zero] at hdrop2
+  have hall : (scan cfg .initial f i).toks.toList = s.toks.toList ++ (t :: rest) := by rw [← hrest2, htoks]; simp
+  have hd1 : (scan cfg .initial f i).toks.toList.drop s.toks.size = t :: rest := by
+    rw [hall, ← Array.length_toList, List.drop_left]
+  have hd2 : (scan cfg .initial f i).toks.toList.drop s'.toks.size = rest := by
+    have : s'.toks.size = (s.toks.toList ++ [t]).length := by rw [htoks]; simp
+    rw [hall, this, show s.toks.toList ++ (t :: rest) = (s.toks.toList ++ [t]) ++ rest by simp, List.drop_left]
+  rw [hd1, List.map_cons, ← hdrop2, hd2]
+
+open ScanS ScanX ScanK in
+/-- **an end-of-line (or full-line) `;` comment is one COMMENT token wherever it starts**: at any between-token point of
+    the scan of `i` with `; cs \n r` ahead (`cs` without newline) -/
+theorem comment_at_point (cfg : ScanCfg) (f f2 : Nat) (i cs r : List Char) (s : Scan)
+    (hs : Reach cfg .initial (initState f i) s) (hst : s.start = s.pos)
+    (hd : i.drop s.pos = ';' :: (cs ++ '\n' :: r)) (hnl : ∀ c ∈ cs, c ≠ '\n') :
+    ∃ t : Tok, t.ty = .COMMENT ∧
+      ((scan cfg .initial f i).toks.toList.drop s.toks.size).map key = key t :: (scan cfg .initial f2 r).toks.toList.map key ∧
+      (scan cfg .initial f i).error.map errKey = (scan cfg .initial f2 r).error.map errKey := by
+  have e1 : s.input = i.toArray := hs.le.input
+  obtain ⟨s', t, hr, h2, h3, h4, h5, h6, _⟩ := reach_comment cfg s cs r hst (by rw [e1]; simpa using hd) hnl
+  have hlen : s.pos + (cs.length + 2 + r.length) = i.length := by
+    have := congrArg List.length hd
+    simp at this
+    omega
+  obtain ⟨k1, k2⟩ := one_token_at_point cfg f f2 i r s s' t hs hr h4 (by omega) (by
+    rw [h3, show s.pos + cs.length + 2 = s.pos + (cs.length + 2) by omega, ← List.drop_drop, hd]
+    show (cs ++ '\n' :: r).drop (cs.length + 1) = r
+    rw [List.drop_length_add_append]; rfl) h5
+  exact ⟨t, h6, k1, k2⟩
+
+open ScanS ScanX ScanK in
+/-- **a `/* … */` comment is one COMMENT token wherever it starts** (any between-token point of the scan of `i`) -/
+theorem block_comment_at_point (cfg : ScanCfg) (f f2 : Nat) (i body r : List Char) (s : Scan)
+    (hs : Reach cfg .initial (initState f i) s) (hst : s.start = s.pos)
+    (hd : i.drop s.pos = '/' :: '*' :: (body ++ '*' :: '/' :: r)) (hnc : NoClose body) :
+    ∃ t : Tok, t.ty = .COMMENT ∧
+      ((scan cfg .initial f i).toks.toList.drop s.toks.size).map key = key t :: (scan cfg .initial f2 r).toks.toList.map key ∧
+      (scan cfg .initial f i).error.map errKey = (scan cfg .initial f2 r).error.map errKey := by
+  have e1 : s.input = i.toArray := hs.le.input
+  obtain ⟨s', t, hr, h2, h3, h4, h5, h6, _⟩ := reach_block_comment cfg s body r hst (by rw [e1]; simpa using hd) hnc
+  have hlen : s.pos + (body.length + 4 + r.length) = i.length := by
+    have := congrArg List.length hd
+    simp at this
+    omega
+  obtain ⟨k1, k2⟩ := one_token_at_point cfg f f2 i r s s' t hs hr h4 (by omega) (by
+    rw [h3, show s.pos + body.length + 4 = s.pos + (body.length + 4) by omega, ← List.drop_drop, hd]
+    show (body ++ '*' :: '/' :: r).drop (body.length + 2) = r
+    rw [List.drop_length_add_append]; rfl) h5
+  exact ⟨t, h6, k1, k2⟩
+
+open ScanS ScanX ScanK in
+/-- the general form of `one_token_at_point`: the scan gets from the point `s` to the between-token point `s'` having
+    emitted the tokens `ts`, and what remains there is `r` up to leading blanks -/
+theorem tokens_at_point (cfg : ScanCfg) (f f2 : Nat) (i r : List Char) (s s' : Scan) (ts : List Tok)
+    (hs : Reach cfg .initial (initState f i) s) (hr : Reach cfg .initial s s') (hst : s'.start = s'.pos)
+    (hpos : s'.pos ≤ i.length) (hrest : (i.drop s'.pos).dropWhile isBlank = r.dropWhile isBlank)
+    (htoks : s'.toks.toList = s.toks.toList ++ ts) :
+    ((scan cfg .initial f i).toks.toList.drop s.toks.size).map key = ts.map key ++ (scan cfg .initial f2 r).toks.toList.map key ∧
+    (scan cfg .initial f i).error.map errKey = (scan cfg .initial f2 r).error.map errKey := by
+  have hr' := Reach.trans hs hr
+  have hrel := blanks_between_tokens cfg f f2 i r s' (initState f2 r) hr' (Reach.refl _) hst rfl hpos (Nat.zero_le _) (by
+      show (i.drop s'.pos).dropWhile isBlank = (r.drop 0).dropWhile isBlank
+      rw [hrest, List.drop_zero])
+  have hpre : s'.toks.toList <+: (scan cfg .initial f i).toks.toList := by
+    rw [scan_of_reach cfg .initial f _ s' hr']
+    exact finish_prefix s' _ (tp_scanLoop cfg .initial s' _ s' (Ext.refl s'))
+  refine ⟨?_, hrel.2⟩
+  obtain ⟨rest, hrest2⟩ := hpre
+  have hdrop2 := hrel.1.eq
+  have h0 : (initState f2 r).toks.size = 0 := rfl
+  rw [h0, List.drop_zero] at hdrop2
+  have hall : (scan cfg .initial f i).toks.toList = s.toks.toList ++ (ts ++ rest) := by rw [← hrest2, htoks]; simp
+  have hd1 : (scan cfg .initial f i).toks.toList.drop s.toks.size = ts ++ rest := by
+    rw [hall, ← Array.length_toList, List.drop_left]
+  have hd2 : (scan cfg .initial f i).toks.toList.drop s'.toks.size = rest := by
+    have : s'.toks.size = (s.toks.toList ++ ts).length := by rw [← htoks]; simp
+    rw [hall, this, ← List.append_assoc, List.drop_left]
+  rw [hd1, List.map_append, ← hdrop2, hd2]
+
+open ScanS ScanX ScanK in
+/-- **an end-of-line comment after an instruction that stands alone changes nothing but the COMMENT token it adds** — the
+    one place where the scanner looks *through* a comment (the look-ahead of `lex_opcode` that decides OPCODE_NAKED).  At
+    any between-token point of the scan of `i` with a mnemonic `abc` that may stand alone ahead, followed by blanks /
+    tabs `ws` (at least one) and `; cs ⏎ r`: the tokens from there on are OPCODE_NAKED `abc`, one COMMENT, then the
+    tokens of the scan of `r` — and with `ws2 ⏎ r` ahead instead (no comment, any trailing blanks) they are
+    OPCODE_NAKED `abc`, then the tokens of the scan of `r`. -/
+theorem naked_opcode_eol_comment (cfg : ScanCfg) (f f2 : Nat) (i1 i2 cs r ws ws2 : List Char) (a b c : Char) (s1 s2 : Scan)
+    (h1 : Reach cfg .initial (initState f i1) s1) (h2 : Reach cfg .initial (initState f i2) s2)
+    (b1 : s1.start = s1.pos) (b2 : s2.start = s2.pos)
+    (d1 : i1.drop s1.pos = a :: b :: c :: (ws ++ ';' :: (cs ++ '\n' :: r)))
+    (d2 : i2.drop s2.pos = a :: b :: c :: (ws2 ++ '\n' :: r))
+    (ha : letterChars.contains a = true)
+    (hmn : cfg.mnemonics.contains (asciiLower (String.ofList [a, b, c])) = true)
+    (hno : cfg.noOperand.contains (asciiLower (String.ofList [a, b, c])) = true)
+    (hws : ∀ c ∈ ws, c = ' ' ∨ c = '\t') (hws2 : ∀ c ∈ ws2, c = ' ' ∨ c = '\t') (hne : ws ≠ [])
+    (hnl : ∀ c ∈ cs, c ≠ '\n') :
+    ∃ t : Tok, t.ty = .COMMENT ∧
+      ((scan cfg .initial f i1).toks.toList.drop s1.toks.size).map key =
+        (TokTy.OPCODE_NAKED, String.ofList [a, b, c]) :: key t :: (scan cfg .initial f2 r).toks.toList.map key ∧
+      ((scan cfg .initial f i2).toks.toList.drop s2.toks.size).map key =
+        (TokTy.OPCODE_NAKED, String.ofList [a, b, c]) :: (scan cfg .initial f2 r).toks.toList.map key ∧
+      (scan cfg .initial f i1).error.map errKey = (scan cfg .initial f i2).error.map errKey := by
+  have e1 : s1.input = i1.toArray := h1.le.input
+  have e2 : s2.input = i2.toArray := h2.le.input
+  have hlt : ∀ (s : Scan) (x : Char) (l : List Char), s.input.toList.drop s.pos = x :: l → s.pos < s.input.size := by
+    intro s x l h
+    apply Decidable.byContradiction
+    intro hc
+    rw [List.drop_of_length_le (by simp; omega)] at h
+    cases h
+  -- the text with the comment
+  obtain ⟨p1, t1, n1, n2, n3, n4, n5, n6, _⟩ := lexInitial_naked cfg s1 a b c ws (';' :: (cs ++ '\n' :: r)) b1
+    (by rw [e1]; simpa using d1) ha hmn hno hws (.inr (.inr rfl)) (.inl hne)
+  have r1 : Reach cfg .initial s1 p1 := Reach.step (hlt s1 _ _ (by rw [e1]; simpa using d1)) n1 (by rw [n3]; simp) (Reach.refl _)
+  have dp1 : i1.drop p1.pos = ws ++ ';' :: (cs ++ '\n' :: r) := by
+    rw [n3, ← List.drop_drop, d1]; rfl
+  have hwsb : ws.all (fun c => [' ', '\t', '\n'].contains c) = true := by
+    rw [List.all_eq_true]
+    intro x hx
+    rcases hws x hx with h | h <;> subst h <;> decide
+  obtain ⟨q1, tc, m1, m2, m3, m4, m5, m6, m7⟩ := reach_comment_ws cfg p1 ws cs r hwsb
+    (by rw [n2, e1]; simpa using dp1) hnl
+  have eq1 : q1.input = i1.toArray := by rw [m2, n2, e1]
+  obtain ⟨k1, k2⟩ := tokens_at_point cfg f f2 i1 r s1 q1 [t1, tc] h1 (Reach.trans r1 m1) m3
+    (by have := m4; rw [eq1] at this; simpa using this)
+    (by have := m5; rw [eq1] at this; simp at this; rw [this])
+    (by rw [m6, n5]; simp)
+  -- the text without the comment
+  obtain ⟨p2, t2, o1, o2, o3, o4, o5, o6, _⟩ := lexInitial_naked cfg s2 a b c ws2 ('\n' :: r) b2
+    (by rw [e2]; simpa using d2) ha hmn hno hws2 (.inr (.inl rfl)) (.inr (by simp))
+  have r2 : Reach cfg .initial s2 p2 := Reach.step (hlt s2 _ _ (by rw [e2]; simpa using d2)) o1 (by rw [o3]; simp) (Reach.refl _)
+  have dp2 : i2.drop p2.pos = ws2 ++ '\n' :: r := by
+    rw [o3, ← List.drop_drop, d2]; rfl
+  have hlen2 : s2.pos + (3 + ws2.length + (1 + r.length)) = i2.length := by
+    have := congrArg List.length d2
+    simp at this
+    omega
+  obtain ⟨j1, j2⟩ := tokens_at_point cfg f f2 i2 r s2 p2 [t2] h2 r2 (by rw [o4]) (by rw [o3]; omega)
+    (by
+      rw [dp2, show ws2 ++ '\n' :: r = (ws2 ++ ['\n']) ++ r by simp]
+      exact dropWhile_append_all _ _ _ (by
+        rw [List.all_eq_true]
+        intro x hx
+        rcases List.mem_append.mp hx with h | h
+        · rcases hws2 x h with h | h <;> subst h <;> decide
+        · simp only [List.mem_singleton] at h; subst h; decide))
+    (by rw [o5]; simp)
+  refine ⟨tc, m7, ?_, ?_, by rw [k2, j2]⟩
+  · rw [k1]
+    show key t1 :: key tc :: _ = _
+    rw [n6]
+    rfl
+  · rw [j1]
+    show key t2 :: _ = _
+    rw [o6]
+    rfl
+
+/-- the types and texts of the tokens the parser sees: COMMENT tokens apart (`comment_skipped`) -/
+def codeKeys (ts : Array Tok) : List (TokTy × String) := (ts.toList.map ScanS.key).filter fun k => k.1 != .COMMENT
+
+open ScanS ScanX in
+/-- **inserting or removing a full-line `;` comment between lines changes no token the parser sees**: for a
+    newline-terminated `p` that scans without error, any indentation `ws` (blanks, tabs, blank lines), any comment text
+    `cs` and any following text `r`, the non-COMMENT tokens of `p ++ ws ++ "; cs \n" ++ r` have the types and texts of
+    those of `p ++ r`, and the two scans end alike.  (`comment_skipped` is the parser half: a COMMENT token at a
+    statement boundary yields no statement.) -/
+theorem insert_comment_line (cfg : ScanCfg) (hcfg : ScanP.CfgOK cfg) (f : Nat) (p ws cs r : List Char)
+    (he : Ends p.toArray) (hok : (scan cfg .initial f p).error = none) (hws : ws.all isBlank = true)
+    (hnl : ∀ c ∈ cs, c ≠ '\n') :
+    codeKeys (scan cfg .initial f (p ++ (ws ++ ';' :: (cs ++ '\n' :: r)))).toks = codeKeys (scan cfg .initial f (p ++ r)).toks ∧
+    (scan cfg .initial f (p ++ (ws ++ ';' :: (cs ++ '\n' :: r)))).error.map errKey =
+      (scan cfg .initial f (p ++ r)).error.map errKey := by
+  obtain ⟨w1, w2⟩ := blank_lines_between cfg hcfg f p ws (';' :: (cs ++ '\n' :: r)) he hok hws
+  obtain ⟨_, a2, a3⟩ := scan_append_tokens cfg hcfg f f p (';' :: (cs ++ '\n' :: r)) he hok
+  obtain ⟨_, b2, b3⟩ := scan_append_tokens cfg hcfg f f p r he hok
+  obtain ⟨t, ht, c2, c3⟩ := comment_line cfg f cs r hnl
+  refine ⟨?_, by rw [w2, a3, b3, c3]⟩
+  unfold codeKeys
+  rw [w1, a2, b2, c2, List.filter_append, List.filter_append, List.filter_cons_of_neg]
+  show ¬ ((key t).1 != TokTy.COMMENT) = true
+  show ¬ (t.ty != TokTy.COMMENT) = true
+  rw [ht]; decide
+
 /-! non-vacuity: the hypotheses of `blanks_between_tokens` hold at concrete points (checked by evaluation), and the
     conclusion is observed on the same texts (these two `example`s are tests, not the theorem) -/
 private def cfgX : ScanCfg := ⟨["nop", "lda"], ["nop"], ["db"]⟩
@@ -365,5 +641,48 @@ example : ScanX.Ends "nop\n  ; note\n".toList.toArray ∧ (scan cfgX .initial 0 
 example : (scan cfgX .initial 0 ("nop\n  ; note\n" ++ "lda #1\n").toList).toks.toList.map ScanS.key =
     (scan cfgX .initial 0 "nop\n  ; note\n".toList).toks.pop.toList.map ScanS.key ++
       (scan cfgX .initial 0 "lda #1\n".toList).toks.toList.map ScanS.key := by decide +kernel
+open ScanS ScanX in
+/-- **inserting or removing a `/* … */` comment between lines changes no token the parser sees**: as
+    `insert_comment_line`, for a comment of any shape (several lines, banner, switched-off code) opened at a
+    between-token point after the newline-terminated `p` and any indentation `ws`; `r` continues right behind the `*/`. -/
+theorem insert_block_comment (cfg : ScanCfg) (hcfg : ScanP.CfgOK cfg) (f : Nat) (p ws body r : List Char)
+    (he : Ends p.toArray) (hok : (scan cfg .initial f p).error = none) (hws : ws.all isBlank = true)
+    (hnc : NoClose body) :
+    codeKeys (scan cfg .initial f (p ++ (ws ++ '/' :: '*' :: (body ++ '*' :: '/' :: r)))).toks =
+      codeKeys (scan cfg .initial f (p ++ r)).toks ∧
+    (scan cfg .initial f (p ++ (ws ++ '/' :: '*' :: (body ++ '*' :: '/' :: r)))).error.map errKey =
+      (scan cfg .initial f (p ++ r)).error.map errKey := by
+  obtain ⟨w1, w2⟩ := blank_lines_between cfg hcfg f p ws ('/' :: '*' :: (body ++ '*' :: '/' :: r)) he hok hws
+  obtain ⟨_, a2, a3⟩ := scan_append_tokens cfg hcfg f f p ('/' :: '*' :: (body ++ '*' :: '/' :: r)) he hok
+  obtain ⟨_, b2, b3⟩ := scan_append_tokens cfg hcfg f f p r he hok
+  obtain ⟨t, ht, c2, c3⟩ := block_comment cfg f body r hnc
+  refine ⟨?_, by rw [w2, a3, b3, c3]⟩
+  unfold codeKeys
+  rw [w1, a2, b2, c2, List.filter_append, List.filter_append, List.filter_cons_of_neg]
+  show ¬ (t.ty != TokTy.COMMENT) = true
+  rw [ht]; decide
+
+/-- non-vacuity of `insert_comment_line`: its hypotheses hold for "nop⏎", indentation "  ⇥", the comment text
+    " it's /* {" and the sample configuration; and the conclusion observed on that sample (a test) -/
+example : ScanX.Ends "nop\n".toList.toArray ∧ (scan cfgX .initial 0 "nop\n".toList).error = none ∧
+    "  \t".toList.all isBlank = true ∧ (∀ c ∈ " it's /* {".toList, c ≠ '\n') := by
+  refine ⟨by unfold ScanX.Ends; decide, by decide +kernel, by decide, by decide⟩
+example : codeKeys (scan cfgX .initial 0 ("nop\n" ++ ("  \t" ++ "; it's /* {\n" ++ "lda #1\n")).toList).toks =
+    codeKeys (scan cfgX .initial 0 ("nop\n" ++ "lda #1\n").toList).toks := by decide +kernel
+/-- non-vacuity of `NoClose`: the `/*/ … /*/` idiom (body "/ nop⏎ /"), a banner body "///// t ////" and a body ending in `*` -/
+example : ScanS.NoClose "/ nop\n /".toList ∧ ScanS.NoClose "///// t ////".toList ∧ ScanS.NoClose " a **".toList := by
+  refine ⟨?_, ?_, ?_⟩ <;> (unfold ScanS.NoClose; decide)
+example : codeKeys (scan cfgX .initial 0 ("nop\n" ++ (" " ++ "/*/ nop\n /*/" ++ "\nlda #1\n")).toList).toks =
+    codeKeys (scan cfgX .initial 0 ("nop\n" ++ "\nlda #1\n").toList).toks := by decide +kernel
+
+/-- non-vacuity of `comment_at_point` for an end-of-line comment: behind "lda #1 " the scan is at a between-token point
+    (head of the second iteration of the outer loop, `reach_iter`) with "; c⏎nop⏎" ahead -/
+example : (bnd 1 "lda #1 ; c\nnop\n".toList).map (fun s => (s.start == s.pos, "lda #1 ; c\nnop\n".toList.drop s.pos)) =
+    some (true, "; c\nnop\n".toList) := by decide +kernel
+
+/-- non-vacuity of `naked_opcode_eol_comment`: `nop` in the sample configuration meets its mnemonic hypotheses (the
+    between-token points and the conclusion on "nop ; c⏎lda #1⏎" / "nop⏎lda #1⏎" are the `okB (bnd 2 …)` example above) -/
+example : letterChars.contains 'n' = true ∧ cfgX.mnemonics.contains (asciiLower (String.ofList ['n', 'o', 'p'])) = true ∧
+    cfgX.noOperand.contains (asciiLower (String.ofList ['n', 'o', 'p'])) = true := by decide
 
 end A816.C16
